@@ -94,7 +94,7 @@ def replay(ctx, obj):
 
 
 def run(ctx):
-    explore(ctx, ctx.subrng("mod"), ctx.budget(300, 5000))
+    explore(ctx, ctx.subrng("mod"), ctx.budget(900, 8000))
     if not ctx.violations:
         try:
             from .. import dense
